@@ -115,6 +115,45 @@ def run(ck):
                                      % (fname, text, bits, "signed" if signed else "unsigned", "no field width" if width is None else "field width %d > %d" % (width, safe), bits))
     ck.need(nconv >= 7, "C40: expected >= 7 integer sscanf conversions in the FTP address parsers, found %d" % nconv)
 
+    ck.rule("F3b LOSSY(scanf, tail): a width-limited integer conversion that ends the format stops after <width> digits and leaves the rest of an over-long last "
+            "component unread (`%3d` turns the p2 of \"...,0,1000\" into 100): such a format must end in %n and every `return true` must be reached only after a test "
+            "on the byte at that offset (buf[consumed]), so that a component continuing with more digits is rejected rather than truncated")
+    ntail = 0
+    for fname in ("Ftp::ParseIpPort", "Ftp::Client::handleEpsvReply"):
+        f = facts.fn(fname)
+        ffl = None
+        for b in f.blocks.values():
+            for ev in b["ev"]:
+                x = E.strip(ev.get("x")) if ev.get("e") == "call" else None
+                if not isinstance(x, dict) or x.get("f") != "sscanf":
+                    continue
+                fmt = E.strip(x["a"][1])["v"]
+                body = fmt[:-2] if fmt.endswith("%n") else fmt
+                m = list(_CONV.finditer(body))
+                if not m or m[-1].end() != len(body) or m[-1].group(4) not in "diouxX":
+                    continue            # the last integer field is followed by a literal or another conversion that must match (EPSV: the closing delimiter)
+                ntail += 1
+                where = f.where(ev["l"])
+                nstored = sum(1 for c in _CONV.finditer(body) if not c.group(1) and c.group(4) != "%")
+                dest = E.strip(x["a"][2 + nstored]) if fmt.endswith("%n") and len(x["a"]) > 2 + nstored else None
+                cons = E.strip(dest.get("e")) if isinstance(dest, dict) and dest.get("k") == "un" and dest.get("op") == "&" else None
+                if not (isinstance(cons, dict) and cons.get("k") == "ref"):
+                    ck.violation("F3b.tail-examined", "F3b|%s|no-consumed-count" % fname, where, "%s: the format \"%s\" ends in a width-limited integer conversion and records no "
+                                 "%%n offset: digits beyond the field width of the last component are silently ignored (\"...,0,1000\" is accepted as ...,0,100)" % (fname, fmt))
+                    continue
+                src = E.strip(x["a"][0])
+                at_tail = E.M(lambda t, cons=cons, src=src: any(n.get("k") == "idx" and E.key(n.get("b")) == E.key(src) and E.m_is_ref(cons["d"])(n.get("i")) for n in E.walk(t))
+                              or any(n.get("k") == "un" and n.get("op") == "*" and cons["d"] in E.mentions(n) and E.key(src) in E.key(n) for n in E.walk(t)),
+                              "%s[%s]" % (E.key(src), cons["d"]))
+                ffl = ffl or ck.flow(f)
+                for st in ck.sites(ffl, ev_return(E.m_const(1)), "return true", 1):
+                    if any(fc[0] == "A" and at_tail(ffl.trees[fc[1]]) for fc in st.facts):
+                        ck.ok("F3b.tail-examined", st.where(), "%s: success only after a test on %s" % (fname, at_tail.desc))
+                    else:
+                        ck.violation("F3b.tail-examined", "F3b|%s|tail-not-examined" % fname, st.where(), "%s: `return true` is reachable without any test on %s, the byte after the "
+                                     "width-limited last field: an over-long last component is truncated, not rejected" % (fname, at_tail.desc), ffl.witness(st))
+    ck.need(ntail >= 1, "C40: no sscanf format ending in a width-limited integer field found (Ftp::ParseIpPort changed shape?)")
+
     ck.rule("F4 GINT(Ftp::Client::handleEpsvReply): at remoteAddr.port(port) the guards (and the declared type of the local) give port in [1,65535]; "
             "all sscanf fields were converted and the three delimiters agree")
     ep = facts.fn("Ftp::Client::handleEpsvReply")
@@ -136,4 +175,141 @@ def run(ck):
         else:
             ck.violation("F4.epsv-port-range", "F4|handleEpsvReply|port-range", st.where(), "handleEpsvReply: guards only give port in [%s, %s], required [1, 65535]" % (lo, hi), fl.witness(st))
 
-    ck.assume("directory-listing parsing (ftpListParseParts) memory safety is not decided by this module")
+    listing(ck)
+    ck.assume("of directory-listing parsing (ftpListParseParts) the module decides the token-array index discipline and the cursor-advance discipline (L1-L3); "
+              "the string library calls themselves (strtok/snprintf/xstrndup/regexec) and the EPLF field arithmetic are not decided")
+
+
+def listing(ck):
+    """ftpListParseParts: the structural memory-safety clauses"""
+    facts = ck.facts(["src/clients/FtpGateway.cc"], whole=False)
+    lp = facts.fn("ftpListParseParts")
+    arr = [ev for b in lp.blocks.values() for ev in b["ev"] if ev.get("e") == "decl" and re.search(r"\[(\d+)\]$", ev.get("t") or "") and "Token" in ev.get("t", "")]
+    ck.need(len(arr) == 1, "C40: the token array of ftpListParseParts was not found")
+    TOK = arr[0]["d"]
+    CAP = int(re.search(r"\[(\d+)\]$", arr[0]["t"]).group(1))
+    stores = [ev for b in lp.blocks.values() for ev in b["ev"] if ev.get("e") == "asg" and any(n.get("k") == "idx" and E.m_is_ref(TOK)(n.get("b")) for n in E.walk(ev["lhs"]))]
+    counts = {E.strip(n["i"]).get("d") for ev in stores for n in E.walk(ev["lhs"]) if n.get("k") == "idx" and E.strip(n["i"]).get("k") == "ref"}
+    ck.need(len(counts) == 1 and None not in counts, "C40: ftpListParseParts no longer fills %s[<count>]" % TOK)
+    N = counts.pop()
+    is_n, is_tok = E.m_is_ref(N), E.m_is_ref(TOK)
+
+    def assigned(ev, name):
+        return ev.get("e") == "asg" and E.m_is_ref(name)(ev.get("lhs"))
+
+    def on_event(ev, env, fs):
+        # lower bound of every int local that is only ever set to a constant and incremented: env['%min:<name>']
+        if ev.get("e") == "asg":
+            l = E.strip(ev.get("lhs"))
+            if isinstance(l, dict) and l.get("k") == "ref" and l.get("dk") == "local":
+                if ev.get("op") == "=" and E.const(ev.get("rhs")) is not None:
+                    env["%min:" + l["d"]] = E.const(ev["rhs"])
+                elif ev.get("op") != "++":
+                    env.pop("%min:" + l["d"], None)
+                # the last definition of a cursor: found by strstr/strchr of a non-empty needle (then it points at a non-NUL byte when non-null)
+                r = E.strip(ev.get("rhs"))
+                if ev.get("op") == "=":
+                    found = isinstance(r, dict) and r.get("k") == "call" and r.get("f") in ("strstr", "strchr", "strpbrk") and len(r.get("a", [])) == 2 and (
+                        (E.strip(r["a"][1]).get("k") == "str" and E.strip(r["a"][1]).get("v")) or (E.const(r["a"][1]) or 0) > 0)
+                    env["%found:" + l["d"]] = 1 if found else 0
+    fl = ck.flow(lp, on_event=on_event)
+
+    ck.rule("L1 BUDGET(ftpListParseParts): the token count is only ever set to 0 or incremented, and both the store %s[count] and the increment happen only with count < %d "
+            "(the declared array size) established" % (TOK, CAP))
+    for st in fl.sites:
+        ev = st.ev
+        if assigned(ev, N):
+            if (ev.get("op") == "=" and E.const(ev.get("rhs")) == 0):
+                ck.ok("L1.token-budget", st.where(), "count = 0")
+                continue
+            lo, hi = ck.interval(st, is_n)
+            if ev.get("op") == "++" and hi is not None and hi <= CAP - 1:
+                ck.ok("L1.token-budget", st.where(), "++%s only with %s <= %d" % (N, N, hi))
+            else:
+                ck.violation("L1.token-budget", "L1|ftpListParseParts|count-update", st.where(), "ftpListParseParts changes the token count by '%s' where the guards only give %s <= %s "
+                             "(required: constant 0 or ++ below %d)" % (st.desc()[:60], N, hi, CAP), fl.witness(st))
+    ck.need(any(assigned(e, N) and e.get("op") == "++" for b in lp.blocks.values() for e in b["ev"]), "C40: the token count is no longer incremented")
+
+    ck.rule("L2 GINT(ftpListParseParts): every subscript of the token array is provably inside [0, count) and count <= %d: a constant c needs c < count established; "
+            "the count itself (the fill loop) needs count < %d; a loop index i + k needs i < count - m with k <= m established and a constant initial value v of i "
+            "(only ++ afterwards) with v + k >= 0" % (CAP, CAP))
+    n_idx = 0
+    for st in fl.sites:
+        trees = [st.ev.get(k) for k in ("x", "lhs", "rhs", "init")]
+        if st.ev.get("e") == "call":
+            continue            # sub-expressions are re-listed as part of the statement that uses them
+        for n in [n for t in trees for n in E.walk(t) if n.get("k") == "idx" and is_tok(n.get("b"))]:
+            n_idx += 1
+            verdict(ck, fl, st, n["i"], N, CAP, is_n)
+    for b in lp.blocks.values():       # subscripts inside branch conditions
+        c = (b.get("term") or {}).get("c")
+        sts = [st for st in fl.sites if st.bid == b["id"]]
+        for n in [n for n in E.walk(c) if n.get("k") == "idx" and is_tok(n.get("b"))] if c is not None else []:
+            ck.need(sts, "C40: a token subscript sits in a condition of a block without events")
+            n_idx += 1
+            verdict(ck, fl, sts[-1], n["i"], N, CAP, is_n)
+    ck.need(n_idx >= 10, "C40: only %d token subscripts found in ftpListParseParts" % n_idx)
+
+    ck.rule("L3 ftpListParseParts: a cursor into the received line (const char * local) is advanced (++, +=) only where it is known not to stand on the terminating NUL: "
+            "`*cursor` established true, or the cursor is non-null and was last set by strstr/strchr of a non-empty needle")
+    n_adv = 0
+    for st in fl.sites:
+        ev = st.ev
+        l = E.strip(ev.get("lhs")) if ev.get("e") == "asg" else None
+        if not (isinstance(l, dict) and l.get("k") == "ref" and l.get("dk") == "local" and (l.get("t") or "").replace(" ", "") == "constchar*" and ev.get("op") in ("++", "+=")):
+            continue
+        n_adv += 1
+        name = l["d"]
+        deref = E.M(lambda t, name=name: E.strip(t).get("k") == "un" and E.strip(t).get("op") == "*" and E.m_is_ref(name)(E.strip(t).get("e")), "*%s" % name)
+        if st.has(deref, True):
+            ck.ok("L3.cursor-not-past-nul", st.where(), "%s advanced only with *%s non-zero" % (name, name))
+        elif st.env.get("%found:" + name) == 1 and st.has(E.m_is_ref(name), True):
+            ck.ok("L3.cursor-not-past-nul", st.where(), "%s advanced only after a successful strstr/strchr of a non-empty needle" % name)
+        else:
+            ck.violation("L3.cursor-not-past-nul", "L3|ftpListParseParts|%s|advance-unguarded" % name, st.where(), "ftpListParseParts advances %s by '%s' without *%s being "
+                         "known non-zero on every path (facts: %s): on a line that ends here the cursor steps over the terminating NUL and what follows is read as the name"
+                         % (name, st.desc()[:40], name, ", ".join(st.fact_keys())[:160]), fl.witness(st))
+    ck.need(n_adv >= 3, "C40: expected the three cursor advances of ftpListParseParts, found %d" % n_adv)
+
+
+def verdict(ck, fl, st, idx, N, CAP, is_n):
+    i = E.strip(idx)
+    c = E.const(idx)
+    lo_n, hi_n = ck.interval(st, is_n)
+    if c is not None:
+        for f in st.facts:      # i < count - m with i >= v gives count >= v + m + 1
+            if f[0] == "A" and f[2] is True:
+                t = E.strip(fl.trees[f[1]])
+                if isinstance(t, dict) and t.get("k") == "bin" and t.get("op") == "<" and E.strip(t["l"]).get("k") == "ref":
+                    v, r, m = st.env.get("%min:" + E.strip(t["l"])["d"]), E.strip(t["r"]), None
+                    if is_n(r):
+                        m = 0
+                    elif isinstance(r, dict) and r.get("k") == "bin" and r.get("op") == "-" and is_n(r["l"]) and E.const(r["r"]) is not None:
+                        m = E.const(r["r"])
+                    if v is not None and m is not None:
+                        lo_n = max(lo_n if lo_n is not None else v + m + 1, v + m + 1)
+        good, why = c >= 0 and lo_n is not None and lo_n > c, "constant %d with %s >= %s" % (c, N, lo_n)
+    elif is_n(i):
+        good, why = hi_n is not None and hi_n <= CAP - 1, "%s itself with %s <= %s" % (N, N, hi_n)
+    else:
+        k, base = 0, i
+        if i.get("k") == "bin" and i.get("op") in ("+", "-") and E.const(i.get("r")) is not None:
+            k, base = (E.const(i["r"]) if i["op"] == "+" else -E.const(i["r"])), E.strip(i["l"])
+        ck.need(isinstance(base, dict) and base.get("k") == "ref" and base.get("dk") == "local", "C40: token subscript %s has an unrecognised shape" % E.key(idx))
+        v = st.env.get("%min:" + base["d"])
+        slack = None
+        for f in st.facts:
+            if f[0] == "A" and f[2] is True:
+                t = E.strip(fl.trees[f[1]])
+                if isinstance(t, dict) and t.get("k") == "bin" and t.get("op") == "<" and E.m_is_ref(base["d"])(t["l"]):
+                    r = E.strip(t["r"])
+                    if is_n(r):
+                        slack = max(slack or 0, 0)
+                    elif isinstance(r, dict) and r.get("k") == "bin" and r.get("op") == "-" and is_n(r["l"]) and E.const(r["r"]) is not None:
+                        slack = max(slack or 0, E.const(r["r"]))
+        good = v is not None and v + k >= 0 and slack is not None and k <= slack
+        why = "%s%+d with %s >= %s and %s < %s - %s" % (base["d"], k, base["d"], v, base["d"], N, slack)
+    if good:
+        ck.ok("L2.token-index", st.where(), "subscript %s: %s" % (E.key(idx), why))
+    else:
+        ck.violation("L2.token-index", "L2|ftpListParseParts|%s" % E.key(idx), st.where(), "ftpListParseParts: subscript %s is not provably inside [0, %s): %s" % (E.key(idx), N, why), fl.witness(st))
